@@ -1,7 +1,6 @@
 """Per-program symbolic check: run a script (default; set inputs; run; ...) through the interpreter on
 the expanded code, build the oracle from the logical program, and let z3 decide the queries."""
 import itertools, random, time, json
-import z3
 from .sym import *
 from .values import *
 from . import models as M
@@ -37,34 +36,50 @@ def column_domain(ty, D):
 
 
 class Inputs:
-    """symbolic input database: for every input relation and candidate tuple a presence Bool
-    (and a second Bool 'present twice' when duplicates are allowed)"""
+    """symbolic input database: for every input relation and candidate tuple a presence variable
+    (and, when duplicates are allowed, a second variable: the tuple is supplied twice iff both hold).
+    Lattice inputs: per key an 'exists' variable and a binary-encoded choice of the value, so that
+    'exactly one value' holds structurally (no side constraints are needed anywhere)."""
 
     def __init__(self, prog, D, input_rels, dup=False, tag=""):
         self.prog, self.D, self.dup = prog, D, dup
-        self.vars = {}    # (rel, tuple) -> Bool
-        self.vars2 = {}   # (rel, tuple) -> Bool (second copy)
-        self.lat = {}     # (rel, key) -> (exists Bool, {val: Bool})
-        self.constraints = []
+        self.vars = {}    # (rel, tuple) -> B   (present at least once)
+        self.vars2 = {}   # (rel, tuple) -> B   (present twice)
+        self.lat = {}     # (rel, key) -> (exists B, {val: B})
+        self.names = {}   # bookkeeping for pinning: (rel, tuple) -> (name1, name2) ; (rel,key) -> (exname, [bit names], [vals])
         self.rels = input_rels
         for rn in input_rels:
             r = prog.relmap[rn]
             doms = [column_domain(t, D) for t in r.types]
             if r.lattice:
                 for key in itertools.product(*doms[:-1]):
-                    ex = z3.Bool("in%s_%s_%s" % (tag, rn, rust_repr(tuple(key))))
-                    vals = {v: z3.Bool("in%s_%s_%s=%s" % (tag, rn, rust_repr(tuple(key)), rust_repr(v))) for v in doms[-1]}
-                    self.lat[(rn, tuple(key))] = (ex, vals)
-                    # exactly one value
-                    vs = list(vals.values())
-                    self.constraints.append(z3.PbEq([(v, 1) for v in vs], 1))
+                    base = "in%s_%s_%s" % (tag, rn, rust_repr(tuple(key)))
+                    ex = BVar(base)
+                    vals = doms[-1]
+                    nb = max(1, (len(vals) - 1).bit_length())
+                    bits = [BVar("%s.v%d" % (base, i)) for i in range(nb)]
+                    conds = {}
+                    for i, v in enumerate(vals):
+                        codes = [i] if i < len(vals) - 1 else list(range(len(vals) - 1, 2 ** nb))
+                        cs = []
+                        for code in codes:
+                            cs.append(AndL([bits[b] if (code >> b) & 1 else Not_(bits[b]) for b in range(nb)]))
+                        conds[v] = OrL(cs)
+                    self.lat[(rn, tuple(key))] = (ex, conds)
+                    self.names[(rn, tuple(key))] = (base, ["%s.v%d" % (base, i) for i in range(nb)], vals)
             else:
                 for t in itertools.product(*doms):
-                    self.vars[(rn, t)] = z3.Bool("in%s_%s_%s" % (tag, rn, rust_repr(t)))
+                    n1 = "in%s_%s_%s" % (tag, rn, rust_repr(t))
+                    a = BVar(n1)
+                    self.vars[(rn, t)] = a
+                    n2 = None
                     if dup:
-                        v2 = z3.Bool("in2%s_%s_%s" % (tag, rn, rust_repr(t)))
-                        self.vars2[(rn, t)] = v2
-                        self.constraints.append(z3.Implies(v2, self.vars[(rn, t)]))
+                        n2 = "in2%s_%s_%s" % (tag, rn, rust_repr(t))
+                        self.vars2[(rn, t)] = And_(a, BVar(n2))
+                    self.names[(rn, t)] = (n1, n2)
+
+    def nvars(self):
+        return len(self.vars) + len(self.vars2) + sum(1 + len(self.names[k][1]) for k in self.lat)
 
     def fill(self, obj, ctx):
         """push the symbolic inputs into the program object's relation vectors"""
@@ -85,36 +100,37 @@ class Inputs:
             d.setdefault(rn, {})[key] = (ex, [(c, v) for v, c in vals.items()])
         return d
 
-    def concrete(self, model):
-        """z3 model -> concrete database {rel: [tuples]} (with duplicates)"""
+    def concrete(self, asg):
+        """assignment {var name: bool} -> concrete database {rel: [tuples]} (with duplicates)"""
         db = {}
         for (rn, t), b in self.vars.items():
-            if z3.is_true(model.eval(b, model_completion=True)):
+            if eval_b(b, asg):
                 db.setdefault(rn, []).append(t)
-                if self.dup and z3.is_true(model.eval(self.vars2[(rn, t)], model_completion=True)):
+                if self.dup and eval_b(self.vars2[(rn, t)], asg):
                     db[rn].append(t)
         for (rn, key), (ex, vals) in self.lat.items():
-            if z3.is_true(model.eval(ex, model_completion=True)):
+            if eval_b(ex, asg):
                 for v, c in vals.items():
-                    if z3.is_true(model.eval(c, model_completion=True)):
+                    if eval_b(c, asg):
                         db.setdefault(rn, []).append(tuple(key) + (v,))
         return db
 
     def pin(self, db):
-        """constraints fixing the inputs to a concrete database"""
-        cs = []
-        for (rn, t), b in self.vars.items():
+        """assignment fixing the inputs to a concrete database"""
+        asg = {}
+        for (rn, t), (n1, n2) in [(k, v) for k, v in self.names.items() if k in self.vars]:
             n = db.get(rn, []).count(t)
-            cs.append(b if n >= 1 else z3.Not(b))
-            if self.dup:
-                cs.append(self.vars2[(rn, t)] if n >= 2 else z3.Not(self.vars2[(rn, t)]))
-        for (rn, key), (ex, vals) in self.lat.items():
+            asg[n1] = n >= 1
+            if n2:
+                asg[n2] = n >= 2
+        for (rn, key) in self.lat:
+            base, bitnames, vals = self.names[(rn, key)]
             rows = [t for t in db.get(rn, []) if tuple(t[:-1]) == key]
-            cs.append(ex if rows else z3.Not(ex))
-            for v, c in vals.items():
-                if rows:
-                    cs.append(c if rows[0][-1] == v else z3.Not(c))
-        return cs
+            asg[base] = bool(rows)
+            code = vals.index(rows[0][-1]) if rows else 0
+            for b, nm in enumerate(bitnames):
+                asg[nm] = bool((code >> b) & 1)
+        return asg
 
     def random_db(self, rng, density=0.4):
         db = {}
@@ -196,19 +212,10 @@ class Exec:
                     d.setdefault(key, []).append((slot, ex, valts))
                 out[rn] = d
             else:
-                out[rn] = {t: (c[0], c[1]) for t, c in vec.d.items()}
+                out[rn] = {t: (c[0], c[1], list(c)) for t, c in vec.d.items()}
         return out
 
 
-def solver_changed_check(solver_factory):
-    def chk(olds, news):
-        diffs = [Xor_(a, b) for a, b in zip(olds, news)]
-        diffs = [d for d in diffs if not (is_const(d) and not d)]
-        if not diffs:
-            return False
-        if any(is_const(d) and d for d in diffs):
-            return True
-        s = solver_factory()
-        s.add(z3.Or(*[z(d) for d in diffs]))
-        return s.check() != z3.unsat
-    return chk
+def changed_check(olds, news):
+    """canonical conditions: a naive round changed something iff some condition differs"""
+    return any(a != b for a, b in zip(olds, news))
